@@ -705,6 +705,37 @@ def write_replay(prop, obligation, payload):
     return p
 
 
+ASSUMPTION_PATTERNS = [
+    ("verus external_body (assumed contract or opaque type)", r"#\[verifier::external_body\]"),
+    ("verus assume_specification", r"assume_specification"),
+    ("verus uninterpreted spec fn", r"uninterp spec fn"),
+    ("verus admit/assume", r"\b(admit|assume)\s*\("),
+    ("kani::assume (input-domain restriction)", r"kani::assume\s*\("),
+    ("kani::stub (unverified replacement)", r"#\[kani::stub\("),
+    ("kani::stub_verified (replacement by a proved contract)", r"#\[kani::stub_verified\("),
+    ("mem::forget in a harness (drop glue not executed)", r"mem::forget\s*\("),
+    ("unsafe in a harness", r"\bunsafe\b"),
+]
+
+
+def assumption_scan(prop, extra_files=()):
+    """mechanical scan of the contract files of a property for every construct that is an assumption, not a proof"""
+    d = os.path.join(VERIF, "contracts", prop)
+    files = sorted(os.path.join(d, f) for f in os.listdir(d) if f.endswith(".rs")) + list(extra_files)
+    out = []
+    for label, pat in ASSUMPTION_PATTERNS:
+        hits = []
+        for f in files:
+            t = open(f).read()
+            # "assume(" of kani is reported under its own label
+            ls = [i + 1 for i, ln in enumerate(t.split("\n")) if re.search(pat, ln) and not (label.startswith("verus admit") and "kani::assume" in ln)]
+            if ls:
+                hits.append({"file": os.path.relpath(f, VERIF), "count": len(ls), "lines": ls[:12]})
+        if hits:
+            out.append({"construct": label, "total": sum(h["count"] for h in hits), "where": hits})
+    return out
+
+
 def write_evidence(prop, tier, seed, obligations, wall, checker_cmds, trusted, assumptions, functions, violations,
                    extra=None, partial=False):
     # obligations matched by a committed known finding are reported separately (they are neither discharged
@@ -733,6 +764,7 @@ def write_evidence(prop, tier, seed, obligations, wall, checker_cmds, trusted, a
         "obligation_list": [o.to_json() for o in counted],
         "samples": [o.to_json() for o in counted[:4]],
         "extraction_drops": DROP_LIST,
+        "assumption_scan": assumption_scan(prop, [os.path.join(VERIF, "contracts", "C01", "de.kani.rs")] if prop == "C05" else []),
         "exhaustive": False,
     }
     if extra:
